@@ -861,6 +861,18 @@ pub fn gen(prop: &str, verif_seed: u64, run_index: u64, tier: Tier) -> Trace {
             strip_rehash: re.chance(1, 2),
             flip_owned: re.chance(1, 4),
             strip_observers: false,
+            // a quarter of the pairs: B is built by the constructor that takes no hasher at all
+            rs_ctor: if t.header.key_type == "TK" && re.chance(1, 4) {
+                match kind {
+                    Kind::Lru => Some(0),
+                    Kind::Slru => Some(re.below(3) as u8),
+                    Kind::TwoQ => Some(3 + re.below(2) as u8),
+                    Kind::Arc => Some(re.below(2) as u8),
+                    _ => None,
+                }
+            } else {
+                None
+            },
         });
     } else if pl.flip_owned_pair && rs.chance(1, 2) {
         t.env_b = Some(EnvB {
@@ -869,6 +881,7 @@ pub fn gen(prop: &str, verif_seed: u64, run_index: u64, tier: Tier) -> Trace {
             strip_rehash: false,
             flip_owned: true,
             strip_observers: false,
+            rs_ctor: None,
         });
     } else if pl.twin_observer_pair {
         t.env_b = Some(EnvB {
@@ -877,6 +890,7 @@ pub fn gen(prop: &str, verif_seed: u64, run_index: u64, tier: Tier) -> Trace {
             strip_rehash: false,
             flip_owned: false,
             strip_observers: true,
+            rs_ctor: None,
         });
     }
     t
